@@ -126,6 +126,12 @@ def run(rep, tier, seed, proof_ok):
         call = dict(P.root_call(prog, r2), style="eval")      # dds_export_graph is an option of dds.eval
         call.pop("path", None)
         jobs.append({"prog": prog, "call": call})
+    import glob
+    import os
+    for fn in sorted(glob.glob(os.path.join(C.VERIF, "corpus", "C18", "*.json"))):
+        c = json.load(open(fn))
+        c["prog"]["root"] = tuple(c["prog"]["root"])
+        jobs.append({"prog": c["prog"], "call": c["call"], "pre": c.get("pre", []), "corpus": c["name"]})
     for placement in c09.PLACEMENTS:
         for producer in ("data-function-before", "keep-before", "earlier-evaluation"):
             prog = c09.build(placement, producer, arg_passing=(placement == "root"))
@@ -164,8 +170,15 @@ def run(rep, tier, seed, proof_ok):
         if r["rec"]["impl"]["out"] != r["ctl"]["impl"]["out"] or hist.impl_obs(r["rec"])["sigs"] != hist.impl_obs(r["ctl"])["sigs"]:
             rep.violation("export-perturbs", "result or signatures differ with and without dds_export_graph", rep_job)
         # 2. model
+        two_sigs = []
         if m.startswith("ok:"):
-            mn, me = m[3:].split("#")
+            mn, me, mk = m[3:].split("#")
+            by_path = {}
+            for x in mk.split(","):
+                if x:
+                    pth, sg = x.split("=")
+                    by_path.setdefault(pth, set()).add(sg)
+            two_sigs = sorted(pth for pth, sgs in by_path.items() if len(sgs) > 1)
             mnodes = set(x for x in mn.split(",") if x)
             medges = set()
             for e in me.split(","):
@@ -181,7 +194,9 @@ def run(rep, tier, seed, proof_ok):
         # 3. specification
         kept, loaded, solid, dashed = spec_graph(job["prog"], job["call"])
         if has_cycle(edges):
-            rep.violation("graph-cyclic", "the exported graph has a cycle", dict(rep_job, edges=sorted(edges)))
+            kind = "path-kept-with-two-signatures" if two_sigs else "other"
+            rep.violation("graph-cyclic:" + kind, "the exported graph has a cycle" + (f" (paths analysed with two signatures: {two_sigs})" if two_sigs else ""),
+                          dict(rep_job, edges=sorted(edges)))
         missing = (kept | loaded) - nodes
         if missing:
             # two paths with one signature share a node (keyed by signature)
